@@ -8,7 +8,7 @@ from .codec import opt, plain
 from .core import Plugin
 
 SAFE = "abcdefghijklmnopqrstuvwxyzABCDEFGHIJKLMNOPQRSTUVWXYZ0123456789-._~"
-PREFIXES = ["go", "GO", "doi", "chebi", "a", "b", "ab", "x-y", "n1", "obo.go", "A_b", "z~"]
+PREFIXES = ["go", "GO", "doi", "chebi", "a", "b", "ab", "x-y", "n1", "obo.go", "A_b", "z~", "123", "4.1", "2-1", "9", "~", "-"]
 
 
 def segment(rng, d):
